@@ -477,6 +477,7 @@ pub fn judge_success_session(
     rng: &mut Rng,
 ) -> SessionVerdicts {
     let mut kinds: BTreeSet<&'static str> = BTreeSet::new();
+    let pre_session_stored: HashSet<H> = st.view.stored_chunks.iter().filter(|(_, caches)| caches.contains(&spec.cache_idx)).map(|(h, _)| *h).collect();
     let (sm, _infos) = out.finalize.as_ref().unwrap().as_ref().unwrap();
     let log = &out.log;
     let puts: Vec<&Event> = log.iter().filter(|e| e.op == Op::Put && e.start).collect();
@@ -636,6 +637,26 @@ pub fn judge_success_session(
             // not part of the property's statement (the global-dedup counter is taken when a match is
             // found, before fragmentation prevention may refuse the run): observed, not claimed
             rep.count("C14", "observed_global_dedup_counter_exceeds_deduped_not_claimed", 1);
+        }
+        // a file all of whose chunks were stored by earlier finalized sessions visible through this shard cache:
+        // every chunk has a dedup answer, so whatever is stored as new was withheld by fragmentation prevention,
+        // and whatever is counted as withheld must be new -> the two counters are equal
+        if !spec.fresh_cache_global_dedup
+            && !rf.chunks.is_empty()
+            && rf.chunks.iter().all(|c| pre_session_stored.contains(&c.0))
+        {
+            rep.count("C14", "fully_dedupable_files_checked", 1);
+            if m.new_chunks > 0 {
+                rep.count("C14", "fully_dedupable_files_with_withheld_chunks", 1);
+            }
+            if m.new_chunks != m.defrag_prevented_dedup_chunks || m.new_bytes != m.defrag_prevented_dedup_bytes {
+                rep.violation(
+                    "C14",
+                    "file-withheld-vs-new-fully-dedupable",
+                    "for a fully dedupable file the bytes withheld by fragmentation prevention differ from the new bytes",
+                    fw(&format!("new {}c/{}B, withheld {}c/{}B", m.new_chunks, m.new_bytes, m.defrag_prevented_dedup_chunks, m.defrag_prevented_dedup_bytes)),
+                );
+            }
         }
         if m.defrag_prevented_dedup_chunks > 0 {
             kinds.insert("defrag-withheld");
@@ -891,7 +912,32 @@ pub fn gen_history(rng: &mut Rng, l: &Limits, o: &GenOpts) -> Vec<SessionSpec> {
             let lens: Vec<usize> = prior.iter().map(|p| p.len()).collect();
             let use_all = rng.chance(1, 2);
             let il = if !o.interleave { 0 } else if o.defrag_focus && si > 0 { 5 } else { 1 };
-            let recipe = if o.defrag_focus && si == 0 && files.is_empty() {
+            // fully dedupable file: whole chunks of a file of an earlier session, short runs, with repeats
+            let aligned_src: Vec<usize> = (0..prior_lens_at_start.len()).filter(|i| prior_lens_at_start[*i] > 40 * l.target).collect();
+            let recipe = if o.defrag_focus && si > 0 && !aligned_src.is_empty() && rng.chance(1, 2) {
+                let f = *rng.pick(&aligned_src);
+                let b = refs::ref_chunk_boundaries(&prior[f], l.target, &gearhash_table());
+                let nb = b.len() - 1; // never use the final chunk (its end is the end of the stream, not a content-defined cut)
+                let mut segs = Vec::new();
+                let mut starts: Vec<usize> = Vec::new();
+                let pieces = rng.urange(40, 220);
+                for _ in 0..pieces {
+                    let k = rng.urange(1, 3);
+                    let s0 = if !starts.is_empty() && rng.chance(2, 5) {
+                        // repeat an earlier piece, possibly shifted by one chunk (second chunk of a run begins a local run)
+                        let p0 = *rng.pick(&starts);
+                        if rng.chance(1, 2) { p0 } else { p0.saturating_sub(1) }
+                    } else {
+                        rng.usize_below(nb.saturating_sub(k).max(1))
+                    };
+                    let s0 = s0.min(nb.saturating_sub(k));
+                    starts.push(s0);
+                    let a = if s0 == 0 { 0 } else { b[s0 - 1] };
+                    let e = b[s0 + k - 1];
+                    segs.push(Seg::Copy { file: f, off: a, len: e - a });
+                }
+                segs
+            } else if o.defrag_focus && si == 0 && files.is_empty() {
                 // a large fresh file for later sessions to interleave against
                 vec![Seg::Fresh { seed: rng.next_u64(), len: l.target * rng.urange(300, 600) }]
             } else {
